@@ -39,6 +39,11 @@ def type_by_name(name, module=None):
     table = {"int": int, "str": str, "List[int]": List[int], "Optional[str]": Optional[str], "Optional[int]": Optional[int],
              "Dict[str, int]": Dict[str, int], "NoneType": type(None), "Dict[str, Any]": Dict[str, Any],
              "Tuple[int, ...]": Tuple[int, ...], "Union[int, str]": Union[int, str]}
+    if name == "LongDict":
+        t = int
+        for _ in range(12):
+            t = Dict[str, t]
+        return t
     if name == "Outer":
         return getattr(module, "Outer", int) if module is not None else int
     return table[name]
@@ -174,10 +179,16 @@ def defs_live(fx, sc):
                     "defn": d, "flavour": fn["flavour"]})
     stubs = build_module_stubs(defs)
     # build_module_stubs_from_traces / StubIndexBuilder.get_stubs take the same path with another order of definitions
+    def safe_items(stub):
+        try:
+            return rf.items_of_text(stub.render())[0]
+        except Exception as e:      # reported through the module case (cases_of_scenario), not here
+            return f"?render raised {type(e).__name__}"
+
     for m, st in stubs.items():
         # compared through ast (names, kinds, defaults, decorators, classes): the order of Union members inside an
         # annotation depends on set iteration order (C14's subject), nothing else may differ
-        if m not in ref_stubs or rf.items_of_text(ref_stubs[m].render())[0] != rf.items_of_text(st.render())[0]:
+        if m not in ref_stubs or safe_items(ref_stubs[m]) != safe_items(st):
             notes.append(f"MISMATCH: build_module_stubs_from_traces renders module {m} differently from build_module_stubs over the same definitions")
     if set(ref_stubs) != set(stubs):
         notes.append("MISMATCH: build_module_stubs_from_traces returns other modules than build_module_stubs")
@@ -204,9 +215,8 @@ def defs_direct(sc):
     return fcs, defs, build_module_stubs(defs), []
 
 
-def body_text(stub):
+def body_text(stub, text):
     """ModuleStub.render() without its import block (C11's)"""
-    text = stub.render()
     if stub.imports_stub.imports:
         head = stub.imports_stub.render()
         if text == head:
@@ -238,10 +248,20 @@ def cases_of_scenario(fx, sc):
     all_term = coq_list(coq_fcase(fc) for fc in fcs)
     out = []
     for modname, stub in stubs.items():
-        full = stub.render()
-        text = body_text(stub)
-        parse_term, parse_plain, err = rf.items_of_text(full)
-        toks = rf.tokens_of_text(text)
+        try:
+            full = stub.render()
+        except Exception as e:
+            # no stub at all for this module: the property predicate is false on the implementation's own behaviour
+            full = None
+            text = f"?render raised {type(e).__name__}: {e}"
+            parse_term, parse_plain, err = "None", None, f"ModuleStub.render() raised {type(e).__name__}: {e}"
+            toks = [f"(TKw {coq_str('?render-raised')})"]
+        if full is not None:
+            text = body_text(stub, full)
+            parse_term, parse_plain, err = rf.items_of_text(full)
+            toks = rf.tokens_of_text(text)
+        else:
+            full = text
         term = "(MCase %s %s %s %s %s %s)" % (
             coq_str(modname), all_term, coq_list(coq_str(m) for m in stubs.keys()),
             coq_text(text), coq_list(toks), parse_term)
@@ -350,6 +370,18 @@ def direct_scenarios(rnd, tier):
         seq = [rnd.choice(gen.KINDS) for _ in range(n)]
         bad.append((gen.make_signature(rnd, seq, validate=False, defaults_mode="any"), False))
     scs = []
+    # the wrap with an empty (or one-entry) parameter list: very long name / very long return annotation
+    for i in range(6 if tier == "quick" else 40):
+        defs = []
+        for j, (nparams, how) in enumerate([(0, "name"), (0, "ret"), (1, "name"), (1, "ret")]):
+            place = rnd.choice(["", "K."])
+            kind = "MODULE" if place == "" else rnd.choice(["STATIC", "INSTANCE", "CLASS", "PROPERTY"])
+            name = gen.very_long_name(rnd, "w", j) if how == "name" else f"w{j}"
+            pk = rnd.choice(["PO", "PK", "VP", "KO", "VK"])
+            params = [{"name": "a", "kind": pk, "default": "empty", "anno": rnd.choice([None, "int"])}] if nparams else []
+            defs.append({"module": "sigmod", "qualname": place + name, "kind": kind, "async": rnd.random() < 0.3,
+                         "params": params, "ret": "LongDict" if how == "ret" else rnd.choice([None, "int"])})
+        scs.append({"kind": "direct", "defs": defs})
     for pool, per in ((sigs, 6), (bad, 3)):
         for i in range(0, len(pool), per):
             defs = []
@@ -385,6 +417,11 @@ def grammar_cases(rnd, tier):
 def describe_failure(c):
     quals = [".".join(fc["qual"]) for fc in c["funcs"]]
     head = f"ModuleStub.render() for traces of {c['module']}.{{{', '.join(quals[:6])}{', ...' if len(quals) > 6 else ''}}}"
+    if c["syntax_error"] and c["syntax_error"].startswith("ModuleStub.render() raised"):
+        suspects = [".".join(fc["qual"]) + str(fc["defn"].signature) for fc in c["funcs"]
+                    if len(fc["gt_params"]) <= 1 and len(fc["qual"][-1]) + len(str(fc["defn"].signature)) > 100]
+        return (f"{head}: {c['syntax_error']} - no stub for the module"
+                + (f"; functions with at most one parameter that must wrap: {suspects[:3]}" if suspects else ""))
     if c["syntax_error"]:
         return f"{head} is not valid Python: {c['syntax_error']}"
     got = [(tuple(it["class"]), it["name"]) for it in (c["parsed"] or [])]
@@ -473,6 +510,8 @@ def run(ctx):
         if any(len(fc["qual"]) >= 3 for fc in c["funcs"]):
             dist["cases_with_nested_class"] += 1
         dist["wrapped_signatures"] += c["text"].count("(\n")
+        dist["wrapped_empty_parameter_lists"] = dist.get("wrapped_empty_parameter_lists", 0) + c["text"].count("(\n)") \
+            + c["text"].count("(\n    )")
         for fc in c["funcs"]:
             dist["functions"] += 1
             ks = [e[1] for e in fc["gt_params"]]
